@@ -213,7 +213,7 @@ func readLoop(body io.ReadCloser, pattern []int, mode string, maxCalls int, o *o
 		var buf []byte
 		if mode == "reuse" {
 			if len(reuse) < k {
-				reuse = fillBuf("stale-meta", 4096)
+				reuse = fillBuf("stale-meta", 16384)
 			}
 			buf = reuse[:k]
 		} else {
